@@ -888,6 +888,16 @@ class Terms(object):
                             for x in split_cond(c_, True):
                                 if x not in out:
                                     out.append(x)
+                    elif it[0] == "new" and inner in (("list",), ("set",)):
+                        # ... or filled by one loop that appends the
+                        # elements passing its tests
+                        b_ = self.filtered(it)
+                        if b_ and len(b_) == 1 and \
+                                b_[0][1] == self._elem(b_[0][0]):
+                            for c_, p_ in b_[0][2]:
+                                for x in split_cond(c_, p_):
+                                    if x not in out:
+                                        out.append(x)
                 except AnalysisError:
                     pass
             child, p_ = p_, getattr(p_, "_parent", None)
@@ -1028,6 +1038,22 @@ class Terms(object):
             return ("index", t[2][0][2][0])
         if t[0] == "new" and t[2][0] in ("list", "set") and len(t[2]) > 1:
             t = t[2]
+        if t[0] == "new" and (t[2] in (("list",), ("set",)) or (
+                t[2][0] == "call" and t[2][1] == ("global", "set") and
+                not t[2][2])):
+            # an empty collection filled by one loop: its elements are what
+            # that loop appends (as for the comprehension it spells out)
+            memo = self.__dict__.setdefault("_built_elem", {})
+            if t not in memo:
+                memo[t] = None          # (guards the recursion)
+                try:
+                    b_ = self.filtered(t)
+                except AnalysisError:
+                    b_ = None
+                if b_ and len(b_) == 1:
+                    memo[t] = b_[0][1]
+            if memo[t] is not None:
+                return memo[t]
         inner = t[2] if t[0] == "new" else t
         if inner[0] in ("listcomp", "setcomp", "genexp") and \
                 len(inner[2]) >= 1:
@@ -1238,10 +1264,21 @@ class Terms(object):
                 # a comprehension over a comprehension: its elements were
                 # already substituted, so it ranges over the inner one's
                 # generators
-                inner = gens[0][0]
-                inner = inner[2] if inner[0] == "new" else inner
+                inner0 = gens[0][0]
+                inner = inner0[2] if inner0[0] == "new" else inner0
                 if inner[0] in ("listcomp", "genexp", "setcomp"):
                     gens = list(inner[2])
+                elif inner0[0] == "new" and inner in (("list",), ("set",)):
+                    # ... or over a collection filled by one loop: the
+                    # loop's iterable and tests
+                    try:
+                        b_ = self.filtered(inner0)
+                    except AnalysisError:
+                        b_ = None
+                    if b_ and len(b_) == 1:
+                        gens = [(b_[0][0], tuple(
+                            c_ if p_ else ("not", c_)
+                            for c_, p_ in b_[0][2]))]
             return (kind, elt, tuple(gens))
         if isinstance(e, ast.Starred):
             return ("star", T(e.value, node, env))
